@@ -335,7 +335,10 @@ fn eval_loc_expr(
                     }
                 }
             }
-            //collected.dedup();
+            // A step maps a node-set to a node-set: without this the next step is evaluated once
+            // per duplicate and `/r/*/../*/..` takes time exponential in the number of steps.
+            let mut set = HashSet::new();
+            collected.retain(|v| set.insert(v.order()));
             nodes = collected;
         }
     }
